@@ -70,9 +70,13 @@ def parse_dump(rp):
     d['nop'] = rp.u32(); d['script'] = rp.bytes(); d['pc'] = rp.u32(); d['pbch'] = rp.u32(); d['pend'] = rp.u32()
     d['opcode_pos'] = rp.u32(); d['codesep'] = rp.u32(); d['weight'] = rp.u64(); d['curr_op_seq'] = rp.u32(); d['done'] = rp.u32()
     d['p2sh'] = rp.u32(); d['successor'] = rp.bytes()
-    h4 = [rp.cu32() for _ in range(4)]; d['hist'] = h4 + [rp.cu32() for _ in range(3)]
-    if h4[0]:
+    h4 = [rp.cu32() for _ in range(4)]; h7 = h4 + [rp.cu32() for _ in range(3)]
+    present = sorted(set(x for x in h7 if x != 0xffffffff))
+    d['hist'] = present[0] if len(present) == 1 else (tuple(h7) if present else 0)          # all snapshot vectors that exist have this common length
+    if h4[0] and h4[0] != 0xffffffff:
         d['hist_top'] = dict(stack=rp.items(), alt=rp.items(), pc=rp.u32(), nop=rp.u32())
+        for k_ in ('pc', 'nop'):
+            if not is_sym(d['hist_top'][k_]) and d['hist_top'][k_] == 0xffffffff: d['hist_top'][k_] = '*'        # that snapshot vector does not exist in this tree
     d['tce'] = rp.u32()
     return d
 
@@ -150,7 +154,7 @@ def outcome_class(o):
     e = o.get('err')
     return 'err:' + (str(e) if not is_sym(e) else 'sym')
 
-def diff_paths(E, name, finals, impl_outcome, ref_fn, assume, inputs, key_fn=None, timeout_ms=None, witness_classes=None, assume_in_pc=True):
+def diff_paths(E, name, finals, impl_outcome, ref_fn, assume, inputs, key_fn=None, timeout_ms=None, witness_classes=None, assume_in_pc=True, ground=None):
     """decide an obligation: every terminated implementation path against the guarded reference outcomes.
     impl_outcome(f) -> comparable structure; ref_fn(ctx) -> comparable structure; inputs: dict name -> term/list (for counterexamples)"""
     timeout_ms = timeout_ms or E.query_timeout_ms
@@ -175,7 +179,7 @@ def diff_paths(E, name, finals, impl_outcome, ref_fn, assume, inputs, key_fn=Non
             if f.aux.get('oracle'): res['cex']['_oracle'] = concretize(m, [[list(a[0:1]) + [list(a[1]), list(a[2]), list(a[3]), a[4]], v] for a, v in f.aux['oracle']])
             res['note'] = 'implementation: %s | reference: %s' % (short(concretize(m, io_)), short(concretize(m, ro_)))
             res['key'] = key_fn(concretize(m, io_), concretize(m, ro_)) if key_fn else None
-        refexec.decide(list(f.pc) if assume_in_pc else list(assume) + list(f.pc), io, cases, V, timeout_ms, on_sat)
+        refexec.decide(list(f.pc) if assume_in_pc else list(assume) + list(f.pc), io, cases, V, timeout_ms, on_sat, ground)
     res['classes'] = classes
     res['status'] = V.status; res['queries'] += V.queries; res['sat'] = V.sat; res['unsat'] = V.unsat; res['unknown'] = V.unknown; res['solver_s'] += V.time
     if V.status == 'inconclusive': res['note'] = 'solver returned unknown on a post-condition query'
